@@ -154,4 +154,264 @@ example (k : StreamKind) (isLazy : Bool) :
 example : Spec.strAt (secFileBytes exImg 1) 5 = some [0x62, 0x61, 0x72] ∧ Spec.strAt (secFileBytes exImg 1) 9 = none ∧
     Spec.strAt (secFileBytes exImg 1) 6 = some [0x61, 0x72] := by decide +kernel
 
+/-! ### 2b. symbol tables (C09) -/
+
+/-- the section index an accessor derives from `sh_link` : `(Elf_Half) sh_link` -/
+def linkIdx (img : Bytes) (i : Nat) : Nat := sh img i "sh_link" % 65536
+
+/-- the bytes of the section `sh_link` names (nothing when it names no section of the file) -/
+def linkedBytes (img : Bytes) (i : Nat) : Bytes :=
+  if linkIdx img i < eh img "e_shnum" then secFileBytes img (linkIdx img i) else []
+
+/-- table-level well-formedness: if `sh_link` names a section of the file, that section occupies file
+    space (e.g. is a string table) -/
+def LinkOk (img : Bytes) (i : Nat) : Prop :=
+  linkIdx img i < eh img "e_shnum" → occupiesFile (sh img (linkIdx img i) "sh_type") = true
+
+instance (img : Bytes) (i : Nat) : Decidable (LinkOk img i) := by unfold LinkOk; infer_instance
+
+theorem readsAs_ready {img : Bytes} {i : Nat} {b : SecBuf} (h : SecReady img i b)
+    (hocc : occupiesFile (sh img i "sh_type") = true) : ReadsAs b (secFileBytes img i) := by
+  obtain ⟨hi, hc⟩ := h.inv hocc
+  have := readsAs_of_inv hi
+  rw [hc] at this
+  exact this
+
+theorem ofNat_toNat64 (x : BitVec 64) (n : Nat) (h : x.toNat = n) : x = BitVec.ofNat 64 n := by
+  apply BitVec.eq_of_toNat_eq
+  have := x.isLt
+  simp only [BitVec.toNat_ofNat, Nat.reducePow] at *
+  omega
+
+/-- `symbol_section_accessor( elf, sections[i] )` on a loaded object: a table the C09 readers can read
+    (`SymTab.Wf`), standing for the file bytes of section `i` and of the section `sh_link` names -/
+theorem symSetup_wf (img : Bytes) (hwf : WellFormedImage img) (o : Obj) (hL : LoadedFrom img o) (i : Nat)
+    (hi : i < eh img "e_shnum") (hocc : occupiesFile (sh img i "sh_type") = true)
+    (hent : sh img i "sh_entsize" = Spec.symSize (clsOf img)) (hlink : LinkOk img i) :
+    ∃ o2 t, symSetup o i = some (o2, t) ∧ LoadedFrom img o2 ∧ t.cfg = ⟨clsOf img, encOf img⟩ ∧
+      SymTab.Wf t (secFileBytes img i) (linkedBytes img i) := by
+  obtain ⟨o1, b1, h1, hL1, hR1, hc1, he1, _⟩ := secResident_ready img hwf o hL i hi
+  obtain ⟨h63, _, _, hin⟩ := wf_sec img hwf i hi false
+  have hidx : symStrIdx b1 = linkIdx img i := by
+    unfold symStrIdx linkIdx
+    rw [← hR1.link]
+    simp only [BitVec.toNat_setWidth, Nat.reducePow]
+  have hent' : ∀ c, c = clsOf img → b1.entSize = BitVec.ofNat 64 (SymTab.symSizeOf c) := by
+    intro c hc
+    apply ofNat_toNat64
+    rw [hR1.entSize, hent, hc, SymTab.symSizeOf_eq]
+  have hstream : b1.size.toNat ≤ b1.streamSize.toNat := by
+    rw [hR1.streamSize, hR1.size]
+    have := hin hocc
+    simp only [BitVec.toNat_ofNat, Nat.reducePow]
+    omega
+  by_cases hl : linkIdx img i < eh img "e_shnum"
+  · obtain ⟨o2, s, h2, hL2, hR2, hc2, he2, _⟩ := secResident_ready img hwf o1 hL1 (linkIdx img i) hl
+    refine ⟨o2, { cfg := ⟨o2.cls, o2.enc⟩, sym := b1, str := some s, hash := none }, ?_, hL2,
+      by rw [hL2.cls, hL2.enc], ⟨hent' _ hL2.cls, hstream, readsAs_ready hR1 hocc, ?_⟩⟩
+    · unfold symSetup
+      simp only [h1, hidx, h2]
+    · simp only [linkedBytes, hl, if_true]
+      exact readsAs_ready hR2 (hlink hl)
+  · refine ⟨o1, { cfg := ⟨o1.cls, o1.enc⟩, sym := b1, str := none, hash := none }, ?_, hL1,
+      by rw [hL1.cls, hL1.enc], ⟨hent' _ hL1.cls, hstream, readsAs_ready hR1 hocc, ?_⟩⟩
+    · unfold symSetup
+      simp only [h1, hidx, secResident_none img o1 hL1 _ (Nat.le_of_not_lt hl)]
+    · simp only [linkedBytes, hl, if_false]
+
+/-- what the gABI says symbol `k` of the table in section `i` is: `get_symbol` succeeds iff record `k` lies
+    wholly inside the section; the attributes are the decoded record (`Spec.decodeSym` via `SymTab.recAt`,
+    `ELF_ST_BIND` / `ELF_ST_TYPE` of `st_info`), the name is the string at `st_name` in the linked table
+    (left empty when there is none) -/
+def specSymbol (img : Bytes) (i : Nat) (k : Nat) : SymOut :=
+  if k < SymTab.countOf (clsOf img) (secFileBytes img i) then
+    ⟨true, (SymTab.nameAt ⟨clsOf img, encOf img⟩ (secFileBytes img i) (linkedBytes img i) k).getD [],
+      SymTab.attrsOfRec (SymTab.recAt ⟨clsOf img, encOf img⟩ (secFileBytes img i) k)⟩
+  else ⟨false, [], {}⟩
+
+/-- **symbols_reports_spec** : for a section `i` of the file that occupies file space, has the class's
+    `sizeof(ElfN_Sym)` as entry size and whose `sh_link` names nothing or a file-occupying section,
+    `symbol_section_accessor(elf, sections[i])` on the loaded object reports
+    `get_symbols_num() = sh_size / sizeof(Sym)` and, for EVERY 64-bit index `k`, `get_symbol(k, …)` = the gABI
+    decoding of record `k` of the section's file bytes with its name from the linked table's file bytes
+    (`specSymbol`); `k` beyond the count is refused with the out-parameters untouched. -/
+theorem symbols_reports_spec (img : Bytes) (hwf : WellFormedImage img) (o : Obj) (hL : LoadedFrom img o) (i : Nat)
+    (hi : i < eh img "e_shnum") (hocc : occupiesFile (sh img i "sh_type") = true)
+    (hent : sh img i "sh_entsize" = Spec.symSize (clsOf img)) (hlink : LinkOk img i) (k : BitVec 64) :
+    ∃ o2, LoadedFrom img o2 ∧
+      inspect o (.symNum i) = .ok (o2, .num (SymTab.countOf (clsOf img) (secFileBytes img i))) ∧
+      inspect o (.sym i k) = .ok (o2, .sym (specSymbol img i k.toNat)) := by
+  obtain ⟨o2, t, h1, hL2, hcfg, hW⟩ := symSetup_wf img hwf o hL i hi hocc hent hlink
+  refine ⟨o2, hL2, ?_, ?_⟩
+  · have hlen : SymTab.countOf (clsOf img) (secFileBytes img i) < 18446744073709551616 := by
+      have h63 := (wf_sec img hwf i hi false).1
+      have hle : SymTab.countOf (clsOf img) (secFileBytes img i) ≤ (secFileBytes img i).length := Nat.div_le_self _ _
+      have : (secFileBytes img i).length ≤ img.length := by
+        unfold secFileBytes; rw [if_pos hocc]
+        simp only [slice, List.length_take, List.length_drop]; omega
+      omega
+    simp only [inspect, h1, SymTab.symbolsNum_eq hW, hcfg, BitVec.toNat_ofNat, Nat.reducePow]
+    rw [Nat.mod_eq_of_lt hlen]; rfl
+  · have hg := SymTab.getSymbol_decoded hW k [] {}
+    rw [hcfg] at hg
+    have hgs : getSym t k = .ok (specSymbol img i k.toNat) := by
+      unfold getSym; rw [hg]; dsimp only; unfold specSymbol; split <;> rfl
+    simp only [inspect, h1, hgs]; rfl
+
+example (k : StreamKind) (isLazy : Bool) :
+    ∃ r : LoadRes, load {} { data := exImg, kind := k } isLazy = .ok r ∧
+      ∀ idx : BitVec 64, ∃ o1, inspect r.obj (.sym 2 idx) = .ok (o1, .sym (specSymbol exImg 2 idx.toNat)) := by
+  obtain ⟨r, h1, _, h3⟩ := of_load exImg {} k isLazy rfl exImg_wf
+  refine ⟨r, h1, fun idx => ?_⟩
+  obtain ⟨o1, _, _, h⟩ := symbols_reports_spec exImg exImg_wf r.obj h3 2 (by decide +kernel) (by decide +kernel)
+    (by decide +kernel) (by decide +kernel) idx
+  exact ⟨o1, h⟩
+example : (specSymbol exImg 2 1).ret = true ∧ (specSymbol exImg 2 1).name = [0x66, 0x6f, 0x6f] ∧
+    (specSymbol exImg 2 1).attrs.value = 0x1000#64 ∧ (specSymbol exImg 2 1).attrs.size = 4#64 ∧
+    (specSymbol exImg 2 1).attrs.bind = 1#8 ∧ (specSymbol exImg 2 1).attrs.typ = 2#8 ∧
+    (specSymbol exImg 2 1).attrs.shndx = 3#16 ∧
+    (specSymbol exImg 2 2).name = [0x62, 0x61, 0x72] ∧ (specSymbol exImg 2 3).ret = false := by decide +kernel
+
+/-! ### 2c. relocation tables (C11) -/
+
+/-- gABI section types of the two table kinds: SHT_REL = 9, SHT_RELA = 4 -/
+def relShType : Spec.RelKind → Nat
+  | .rel => 9
+  | .rela => 4
+
+theorem stype_of_toNat (t : BitVec 32) (n : Nat) (h : t.toNat = n) : t = BitVec.ofNat 32 n := by
+  apply BitVec.eq_of_toNat_eq
+  have := t.isLt
+  simp only [BitVec.toNat_ofNat, Nat.reducePow] at *
+  omega
+
+/-- what the gABI says entry `k` of the relocation table in section `i` is (`none`: there is no such
+    entry): the decoding of the `sizeof(Rel/Rela)` bytes at `k * sh_entsize` of the section's file bytes -/
+def specReloc (img : Bytes) (i : Nat) (kind : Spec.RelKind) (k : Nat) : Option Spec.RelocEntry :=
+  if k < sh img i "sh_size" / sh img i "sh_entsize" then
+    some (Spec.decodeEntry ⟨clsOf img, encOf img⟩ kind
+      (slice (secFileBytes img i) (k * sh img i "sh_entsize") (Spec.entSize (clsOf img) kind)))
+  else none
+
+/-- **reloc_reports_spec** (REL and RELA, both classes, both byte orders): for a section `i` of type
+    SHT_REL / SHT_RELA whose entry size is at least the class's `sizeof(ElfN_Rel/Rela)`,
+    `relocation_section_accessor(elf, sections[i]).get_entry(k, offset, symbol, type, addend)` on the loaded
+    object returns, for EVERY 64-bit `k`: for `k < sh_size / sh_entsize` true with the gABI decoding of record `k`
+    of the section's file bytes (r_offset, `ELFn_R_SYM` / `ELFn_R_TYPE` of r_info, r_addend as a signed value,
+    0 for REL); for every other `k` false.  The section is not changed. -/
+theorem reloc_reports_spec (img : Bytes) (hwf : WellFormedImage img) (o : Obj) (hL : LoadedFrom img o) (i : Nat)
+    (hi : i < eh img "e_shnum") (kind : Spec.RelKind) (hty : sh img i "sh_type" = relShType kind)
+    (hent : Spec.entSize (clsOf img) kind ≤ sh img i "sh_entsize") (k : BitVec 64) :
+    ∃ o1 b1 r, secResident o i = some (o1, b1) ∧ LoadedFrom img o1 ∧
+      Reloc.getEntry (encOf img) b1 k = .ok (b1, r) ∧
+      r.map Reloc.Entry.toSpec = specReloc img i kind k.toNat := by
+  obtain ⟨o1, b1, h1, hL1, hR1, _⟩ := secResident_ready img hwf o hL i hi
+  have hocc : occupiesFile (sh img i "sh_type") = true := by rw [hty]; cases kind <;> decide
+  obtain ⟨hinv, hcont⟩ := hR1.inv hocc
+  have hRS : C11.RelocSec (clsOf img) kind b1 :=
+    ⟨hinv, hR1.cls, by
+      apply (stype_of_toNat _ _ (hR1.stype.trans hty)).trans
+      cases kind <;> rfl, by rw [hR1.entSize]; exact hent⟩
+  by_cases hk : k.toNat < sh img i "sh_size" / sh img i "sh_entsize"
+  · obtain ⟨e, he, hs⟩ := C11.get_refines (clsOf img) kind (encOf img) b1 hRS k (by rw [hR1.size, hR1.entSize]; exact hk)
+    rw [hR1.getData] at he
+    refine ⟨o1, b1, some e, h1, hL1, he, ?_⟩
+    simp only [Option.map_some, specReloc, hk, if_true, hs, hcont, hR1.entSize]
+  · refine ⟨o1, b1, none, h1, hL1, C11.get_invalid (encOf img) b1 k (by rw [hR1.size, hR1.entSize]; omega), ?_⟩
+    simp only [Option.map_none, specReloc, hk, if_false]
+
+example (k : StreamKind) (isLazy : Bool) :
+    ∃ r : LoadRes, load {} { data := exImg, kind := k } isLazy = .ok r ∧
+      ∀ idx : BitVec 64, ∃ o1 b1 e, secResident r.obj 4 = some (o1, b1) ∧
+        Reloc.getEntry (encOf exImg) b1 idx = .ok (b1, e) ∧
+        e.map Reloc.Entry.toSpec = specReloc exImg 4 .rela idx.toNat := by
+  obtain ⟨r, h1, _, h3⟩ := of_load exImg {} k isLazy rfl exImg_wf
+  refine ⟨r, h1, fun idx => ?_⟩
+  obtain ⟨o1, b1, e, g1, _, g2, g3⟩ := reloc_reports_spec exImg exImg_wf r.obj h3 4 (by decide +kernel) .rela
+    (by decide +kernel) (by decide +kernel) idx
+  exact ⟨o1, b1, e, g1, g2, g3⟩
+example : specReloc exImg 3 .rel 1 = some ⟨0x20, 2, 1, 0⟩ ∧ specReloc exImg 3 .rel 2 = none ∧
+    specReloc exImg 4 .rela 0 = some ⟨0x30, 1, 3, -4⟩ := by decide +kernel
+
+/-! ### 2d. dynamic sections (C12) -/
+
+/-- the linked string table as the specification sees it (`none`: `sh_link` names no section of the file) -/
+def linkedTable (img : Bytes) (i : Nat) : Option Bytes :=
+  if linkIdx img i < eh img "e_shnum" then some (secFileBytes img (linkIdx img i)) else none
+
+/-- `dynamic_section_accessor( elf, sections[i] )` on a loaded object: a consistent accessor (C12's `Good`)
+    standing for the file bytes of section `i` and of the string table `sh_link` names -/
+theorem dynSetup_good (img : Bytes) (hwf : WellFormedImage img) (o : Obj) (hL : LoadedFrom img o) (i : Nat)
+    (hi : i < eh img "e_shnum") (hocc : occupiesFile (sh img i "sh_type") = true)
+    (hent : sh img i "sh_entsize" = Spec.dynSize (clsOf img)) (hlink : LinkOk img i) :
+    ∃ o2 a, dynSetup o i = some (o2, a) ∧ LoadedFrom img o2 ∧ a.cfg = ⟨clsOf img, encOf img⟩ ∧
+      C12.Good a (secFileBytes img i) (linkedTable img i) := by
+  obtain ⟨o1, b1, h1, hL1, hR1, _⟩ := secResident_ready img hwf o hL i hi
+  obtain ⟨hinv, hcont⟩ := hR1.inv hocc
+  have hidx : dynStrIdx b1 = linkIdx img i := by
+    unfold dynStrIdx linkIdx dyn_strtab_index
+    rw [← hR1.link]
+    simp only [BitVec.toNat_setWidth, Nat.reducePow]
+  have hent' : b1.entSize = BitVec.ofNat 64 (Spec.dynSize (clsOf img)) :=
+    ofNat_toNat64 _ _ (by rw [hR1.entSize, hent])
+  by_cases hl : linkIdx img i < eh img "e_shnum"
+  · obtain ⟨o2, s, h2, hL2, hR2, _⟩ := secResident_ready img hwf o1 hL1 (linkIdx img i) hl
+    obtain ⟨sinv, scont⟩ := hR2.inv (hlink hl)
+    refine ⟨o2, mkDyn o2 b1 (some s), ?_, hL2, by simp [mkDyn, hL2.cls, hL2.enc], ⟨⟨hinv, hcont, ?_, ?_, ?_⟩, Or.inl rfl⟩⟩
+    · unfold dynSetup
+      simp only [h1, hidx, h2]
+    · simp [mkDyn, hR1.cls, hL2.cls]
+    · simp only [mkDyn, hL2.cls]; exact hent'
+    · simp only [mkDyn, linkedTable, hl, if_true, C12.StrOk]; exact ⟨sinv, scont⟩
+  · refine ⟨o1, mkDyn o1 b1 none, ?_, hL1, by simp [mkDyn, hL1.cls, hL1.enc], ⟨⟨hinv, hcont, ?_, ?_, ?_⟩, Or.inl rfl⟩⟩
+    · unfold dynSetup
+      simp only [h1, hidx, secResident_none img o1 hL1 _ (Nat.le_of_not_lt hl)]
+    · simp [mkDyn, hR1.cls, hL1.cls]
+    · simp only [mkDyn, hL1.cls]; exact hent'
+    · simp only [mkDyn, linkedTable, hl, if_false, C12.StrOk]
+
+/-- the records of the dynamic section `i` as the gABI reads them from the file bytes -/
+def specDynEntries (img : Bytes) (i : Nat) : List Spec.DynEntry :=
+  Spec.entriesOf ⟨clsOf img, encOf img⟩ (secFileBytes img i)
+
+/-- **dynamic_reports_spec** : for a section `i` that occupies file space, has the class's
+    `sizeof(ElfN_Dyn)` as entry size and whose `sh_link` names nothing or a file-occupying section,
+    `dynamic_section_accessor(elf, sections[i])` on the loaded object reports
+    `get_entries_num() = min(sh_size / sizeof(Dyn), index of the first DT_NULL + 1)` of the records decoded from
+    the section's file bytes, and, for EVERY 64-bit `k`, `get_entry(k, tag, value, str)` = the reference read-out
+    `Spec.dynGet` of those records: entry `k` below the count (tag sign-extended from the class width, `d_un`,
+    the string at `d_un` in the linked table's file bytes for string-valued tags), refused at and beyond it. -/
+theorem dynamic_reports_spec (img : Bytes) (hwf : WellFormedImage img) (o : Obj) (hL : LoadedFrom img o) (i : Nat)
+    (hi : i < eh img "e_shnum") (hocc : occupiesFile (sh img i "sh_type") = true)
+    (hent : sh img i "sh_entsize" = Spec.dynSize (clsOf img)) (hlink : LinkOk img i) (k : BitVec 64) :
+    ∃ o2 r, LoadedFrom img o2 ∧
+      inspect o (.dynNum i) = .ok (o2, .num (Spec.dynCount (specDynEntries img i))) ∧
+      Spec.dynCount (specDynEntries img i) =
+        min ((secFileBytes img i).length / Spec.dynSize (clsOf img)) (Spec.firstNull (specDynEntries img i) + 1) ∧
+      inspect o (.dyn i k) = .ok (o2, .dyn r) ∧
+      C12.outOf r = Spec.dynGet (specDynEntries img i) (linkedTable img i) k.toNat := by
+  obtain ⟨o2, a, h1, hL2, hcfg, hG⟩ := dynSetup_good img hwf o hL i hi hocc hent hlink
+  obtain ⟨a1, n, hn, _, _, _, hnv⟩ := C12.entriesNum_ok a _ _ hG
+  obtain ⟨a2, r, hg, _, _, hout⟩ := C12.getEntry_ok a _ _ hG k
+  rw [hcfg] at hnv hout
+  refine ⟨o2, r, hL2, ?_, ?_, ?_, hout⟩
+  · simp only [inspect, h1, hn, hnv, specDynEntries]; rfl
+  · unfold Spec.dynCount specDynEntries
+    simp [Spec.entriesOf]
+  · simp only [inspect, h1, hg]; rfl
+
+example (k : StreamKind) (isLazy : Bool) :
+    ∃ r : LoadRes, load {} { data := exImg, kind := k } isLazy = .ok r ∧
+      ∀ idx : BitVec 64, ∃ o1 g, inspect r.obj (.dyn 5 idx) = .ok (o1, .dyn g) ∧
+        C12.outOf g = Spec.dynGet (specDynEntries exImg 5) (linkedTable exImg 5) idx.toNat := by
+  obtain ⟨r, h1, _, h3⟩ := of_load exImg {} k isLazy rfl exImg_wf
+  refine ⟨r, h1, fun idx => ?_⟩
+  obtain ⟨o1, g, _, _, _, g1, g2⟩ := dynamic_reports_spec exImg exImg_wf r.obj h3 5 (by decide +kernel)
+    (by decide +kernel) (by decide +kernel) (by decide +kernel) idx
+  exact ⟨o1, g, g1, g2⟩
+/-- four records in the file, the third is DT_NULL: three are reported; DT_NEEDED resolves through `.strtab` -/
+example : Spec.dynCount (specDynEntries exImg 5) = 3 ∧
+    Spec.dynGet (specDynEntries exImg 5) (linkedTable exImg 5) 0 = .ok 1 1 [0x66, 0x6f, 0x6f] ∧
+    Spec.dynGet (specDynEntries exImg 5) (linkedTable exImg 5) 3 = .invalid := by decide +kernel
+
 end ElfioVerif.ComposeTables
